@@ -41,7 +41,7 @@ class Path:
 
 
 class Collector(Client):
-    def __init__(self, inline: Callable[[FuncInfo], bool] = lambda fi: False, depth: int = 3,
+    def __init__(self, inline: Callable[[FuncInfo], bool] = lambda fi: default_inline(fi), depth: int = 3,
                  raises: Callable[["Collector", Interp, Value, ast.AST], List[str]] = None,
                  yield_raises: bool = False, record_branches: bool = False,
                  intercept: Optional[Callable[[Interp, Value, Sequence[Value], Any, ast.Call, State], Optional[List[Tuple[Value, State]]]]] = None) -> None:
@@ -120,8 +120,24 @@ class _RecordingInterp(Interp):
         return super().call(cv, args, kwargs, node, st, out, meta)
 
 
+def default_inline(fi: FuncInfo) -> bool:
+    """Private helpers are part of the function that calls them: a call of a repository function whose name starts with one
+    underscore (not a dunder) is analysed inline, so that extracting a few statements into a helper - or inlining one -
+    does not change what a path rule sees. Public functions stay calls (rules name them)."""
+    n = fi.name
+    if not (n.startswith("_") and not n.startswith("__")):
+        return False
+    # a decorator can change what a call does (a cache, a wrapper): such a helper is not its body
+    return all(d in ("staticmethod", "classmethod") for d in fi.decorators)
+
+
+def inline_except(*names: str) -> Callable[[FuncInfo], bool]:
+    """default_inline, but the named private functions stay calls (they are what a rule talks about)"""
+    return lambda fi: default_inline(fi) and fi.name not in names
+
+
 def run_paths(program: Program, fn: FuncInfo, self_cls: Optional[ClassInfo] = None, *,
-              inline: Callable[[FuncInfo], bool] = lambda fi: False, depth: int = 3,
+              inline: Callable[[FuncInfo], bool] = default_inline, depth: int = 3,
               raises=None, yield_raises: bool = False, record_branches: bool = False,
               bind: Optional[Dict[str, Value]] = None, intercept=None) -> Tuple[List[Path], Collector, Interp]:
     col = Collector(inline, depth, raises, yield_raises, record_branches, intercept)
